@@ -1,7 +1,7 @@
 INIT TInit
 NEXT TNext
 CONSTANTS
-  Models = {"sphere", "cylinder", "broad_peak", "sphere@hardsphere", "sphere+cylinder"}
+  Models = {"sphere", "cylinder", "broad_peak", "sphere@hardsphere", "sphere+cylinder", "vscalar"}
   QSets = {"q1", "q2", "qxy"}
   Requests = {"mono", "pd", "pdc", "pd2", "empty", "mode", "mag"}
   Slots = {"k1", "k2", "k3"}
